@@ -787,7 +787,7 @@ class Referable(HasExtension, metaclass=abc.ABCMeta):
                  ancestor
         """
         referable: Referable = self
-        relative_path: List[NameType] = [self.id_short]
+        relative_path: List[NameType] = [self._path_segment()]
         while referable is not None:
             if referable.source != "":
                 relative_path.reverse()
@@ -795,10 +795,22 @@ class Referable(HasExtension, metaclass=abc.ABCMeta):
             if referable.parent:
                 assert isinstance(referable.parent, Referable)
                 referable = referable.parent
-                relative_path.append(referable.id_short)
+                relative_path.append(referable._path_segment())
                 continue
             break
         return None, None
+
+    def _path_segment(self) -> Optional[NameType]:
+        """
+        The segment addressing this object relative to its parent in an id_short path, as it is understood by
+        :meth:`UniqueIdShortNamespace.get_referable`: the position (as string) for a child of a
+        :class:`~basyx.aas.model.submodel.SubmodelElementList` (whose id_short is generated and private to the list),
+        the id_short otherwise.
+        """
+        from .submodel import SubmodelElementList
+        if isinstance(self.parent, SubmodelElementList):
+            return str(self.parent.value.index(self))
+        return self.id_short
 
     def update_from(self, other: "Referable", update_source: bool = False):
         """
@@ -829,7 +841,7 @@ class Referable(HasExtension, metaclass=abc.ABCMeta):
         ancestors. If there is no source, this function will do nothing.
         """
         current_ancestor = self.parent
-        relative_path: List[NameType] = [self.id_short]
+        relative_path: List[NameType] = [self._path_segment()]
         # Commit to all ancestors with sources
         while current_ancestor:
             assert isinstance(current_ancestor, Referable)
@@ -837,7 +849,7 @@ class Referable(HasExtension, metaclass=abc.ABCMeta):
                 backends.get_backend(current_ancestor.source).commit_object(committed_object=self,
                                                                             store_object=current_ancestor,
                                                                             relative_path=list(relative_path))
-            relative_path.insert(0, current_ancestor.id_short)
+            relative_path.insert(0, current_ancestor._path_segment())
             current_ancestor = current_ancestor.parent
         # Commit to own source and check if there are children with sources to commit to
         self._direct_source_commit()
